@@ -42,7 +42,7 @@ PROPS = {
     "C07": P(["inval"], 107,
              rule="GETs in several spellings and variants interleaved with unsafe requests of registered, WebDAV and unknown method tokens, statuses 1xx-5xx, relative / absolute / same- / cross-origin Location and Content-Location; 1-2 clients. A third of the runs inject transient read errors of the store (err / operation timeout on Get) while requests are handled; unsafe exchanges whose Delete was refused are not judged; storing or freshening that overlaps the unsafe request is not judged.",
              require_probes=["C07/served-after-invalidation"], technique="deterministic simulation: seeded histories, happens-before oracle on store writes vs unsafe exchanges"),
-    "C08": P(["writeback", "swrvary", "swr", "varyflip"], 108,
+    "C08": P(["writeback", "swrvary", "swr", "varyflip", "wbfault"], 108,
              rule="Short lifetimes relative to think times so that entries are validated repeatedly; 304s carrying header updates, full replies with changed validators, 2-4 variants per URI, stale-while-revalidate so refreshes run in the detached goroutine at scheduler-chosen instants.",
              require_probes=["C08/"], technique="deterministic simulation: virtual clock, scheduler-controlled background goroutine, quiet-window model of the latest origin response"),
     "C09": P(["hits"], 109,
